@@ -176,6 +176,11 @@ def run(res, tier, seed, replay):
         samples=[dict(kind=http[0]["kind"], ops=http[0]["ops"][:6])],
         traces_validated_against_impl=len(http), json_trees_checked=len(jcases), json_kinds=kinds,
         direct_vs_http_failures=len(failures))
+    # (4) the Jura service's own reqwest client over real HTTP, in lockstep with the model (driver/server.py)
+    if not replay or json.load(open(replay)).get("component") == "jura-client":
+        jc = server.run_jclient_lockstep(res, "C20", tier, seed, wd, replay=replay)
+        res.coverage.update(jc)
+        res.coverage["evaluations"] += jc["jclient_lockstep_requests"]
     res.assumptions += ["serde_json's text layer (number printing/parsing) and actix routing/extractors are exercised, not modelled",
                         "Mutex atomicity of handlers is read off the code"]
     return ob
